@@ -7,7 +7,7 @@
    a "reader" is the pair (file-handle line, GroFile._current_atom). *)
 From Coq Require Import ZArith String List.
 From GM Require Import Base.Res Model.SystemGro Proofs.SystemGroInit Proofs.SystemGroAccess Proofs.SystemGroMain
-  Proofs.SystemGroComp Proofs.SystemGroSlice Proofs.SystemGroExamples.
+  Proofs.SystemGroComp Proofs.SystemGroSlice Proofs.SystemGroExamples Gen.SysGen Proofs.SysGenEq.
 Import ListNotations.
 Local Open Scope nat_scope.
 
@@ -119,6 +119,16 @@ Theorem C12_composition : forall f st s st0 st1 rs,
   exists c, composition s = Ok c /\ forall name, counter_get name c = count_name name rs.
 Proof. exact composition_counts. Qed.
 Print Assumptions C12_composition.
+
+(* the model is the source (DESIGN.md 4.6): Gen/SysGen.v is re-translated from the text of
+   SystemGro._molecules_ordered_all_gen in gaddlemaps/components/_system.py at every run (harness/pytrans_gen.py): the
+   accumulator loops `start_atom = 0; for index, ammount in ...: len_mol = len(different_molecules[index]);
+   for _ in range(ammount): yield (index, start_atom, len_mol); start_atom += len_mol` yield, for every view, exactly the
+   offset list `entries` that every access theorem of this file is about *)
+Theorem C12_model_is_source_offsets : forall s : sysgro,
+  molecules_ordered_all_gen (map (@length _) (s_templates s)) (s_ordered s) = entries s.
+Proof. exact molecules_ordered_all_gen_eq. Qed.
+Print Assumptions C12_model_is_source_offsets.
 
 (* ---- non-vacuity: the hypotheses are met by concrete files (Proofs/SystemGroExamples.v) ---- *)
 (* D9: (1,"2AB") next to (12,"AB") - both have residname "12AB" - are two residues *)
